@@ -210,7 +210,14 @@ def rule_r3(prog, res):
            any(isinstance(x, ast.Assign) and unparse(x) == 'value = -value'
                for x in n_.body)]
     for n_ in neg:
-        t = unparse(n_.test).replace(' ', '')
+        test_ = n_.test
+        if isinstance(test_, ast.Name):
+            # a boolean flag standing for a condition computed before
+            from ..flow import flag_condition
+            c_ = flag_condition(f.node, test_.id, before=n_.lineno)
+            if c_ is not None:
+                test_ = c_
+        t = unparse(test_).replace(' ', '')
         ok = t in ('value.days<0', 'value<timedelta(0)', 'value<timedelta()')
         where = '%s:%d' % (f.module.relpath, n_.lineno)
         res.ob('R3', where, 'duration_to_unicode: negative when %s' % t,
